@@ -509,6 +509,10 @@ class RunLengthArray(NPSIndexable, np.lib.mixins.NDArrayOperatorsMixin):
                 end = len(self)+s.stop
             else:
                 end = s.stop
+        # bounds beyond the ends clamp as for any python sequence
+        lo, hi = (-1, len(self)-1) if is_reverse else (0, len(self))
+        start = min(max(start, lo), hi)
+        end = min(max(end, lo), hi)
         if is_reverse:
             start, end = (end+1, start+1)
         if start >= end:
